@@ -400,6 +400,10 @@ type c14EscCase struct {
 	Step   int64 `json:"step"`    // probe spacing, minutes
 	Idle   int64 `json:"idle"`    // extra minutes sat out after a measured lock-out
 	ProbeW bool  `json:"probe_w"` // also present wrong codes during the lock-outs that are sat out
+	// Outage: the primary profile store is unreachable from before the first
+	// guess (profiles are served from the synchronised offline cache): second-
+	// factor checks continue, and so must their throttling
+	Outage bool `json:"outage"`
 }
 
 func c14GenEsc(t *rapid.T) c14EscCase {
@@ -409,6 +413,7 @@ func c14GenEsc(t *rapid.T) c14EscCase {
 		Step:   rapid.SampledFrom([]int64{5, 10, 15, 20}).Draw(t, "step"),
 		Idle:   rapid.SampledFrom([]int64{1, 5, 15}).Draw(t, "idle"),
 		ProbeW: rapid.Bool().Draw(t, "probe_w"),
+		Outage: rapid.IntRange(0, 2).Draw(t, "outage") == 0,
 	}
 }
 
@@ -423,6 +428,14 @@ func c14MeasureLockout(c c14EscCase, k int, prev []int64, res *vResult) (int64, 
 		Users: map[string]string{vUserAlice: vPwAlice}, EnableLocalTOTP: true})
 	defer w.Close()
 	w.vSetTOTP(vUserAlice, vTOTPSecretAlice)
+	if c.Outage {
+		w.vShimPrimary()
+		if err := copyDBIntoSQLite(w.state.db, w.state.cacheDB, "sqlite"); err != nil {
+			panic(err)
+		}
+		w.vPrimaryOutage(true)
+		defer w.vPrimaryOutage(false)
+	}
 	present := func(right bool) (bool, bool) {
 		code := vTOTPCode(vTOTPSecretAlice, time.Now())
 		if !right {
@@ -496,7 +509,7 @@ func c14CheckEsc(c c14EscCase) *vResult {
 			break
 		}
 		if k == 1 && l == 0 {
-			res.violate("no-lockout", "right code accepted 2.5 s after the 5th consecutive failure (gap %d ms)", c.GapMs)
+			res.violate("no-lockout", "right code accepted 2.5 s after the 5th consecutive failure (gap %d ms, primary outage %v)", c.GapMs, c.Outage)
 			return res
 		}
 		if k > 1 && l <= measured[k-2] {
@@ -506,15 +519,15 @@ func c14CheckEsc(c c14EscCase) *vResult {
 		}
 		measured = append(measured, l)
 	}
-	res.Desc = fmt.Sprintf("rounds=%d gap=%d step=%d idle=%d probe_w=%v", c.Rounds, c.GapMs, c.Step, c.Idle, c.ProbeW)
+	res.Desc = fmt.Sprintf("rounds=%d gap=%d step=%d idle=%d probe_w=%v outage=%v", c.Rounds, c.GapMs, c.Step, c.Idle, c.ProbeW, c.Outage)
 	res.NonTrivial = len(measured) >= 2
-	res.label(fmt.Sprintf("rounds-measured:%d", len(measured)))
+	res.label(fmt.Sprintf("rounds-measured:%d", len(measured)), fmt.Sprintf("outage:%v", c.Outage))
 	return res
 }
 
 func TestVerifC14Escalation(t *testing.T) {
 	vRunRapid(t,
-		"rapid: {2-3 rounds of five spaced failures} x {gap between failures 2.5 s-5 min} x {probe step 5-20 min} x {idle time after a sat-out lock-out} x {wrong attempts during a sat-out lock-out}; the lock-out after round k is measured by presenting the right code every step (time shifting) in a fresh world; relational oracle: a lock-out exists after 5 failures and the one after 5(k+1) consecutive failures is strictly longer than the one after 5k; non-trivial = at least two lock-outs measured; distinct = parameter tuple",
+		"rapid: {2-3 rounds of five spaced failures} x {gap between failures 2.5 s-5 min} x {probe step 5-20 min} x {idle time after a sat-out lock-out} x {wrong attempts during a sat-out lock-out} x {primary profile store reachable / in outage with profiles served from the synchronised cache}; the lock-out after round k is measured by presenting the right code every step (time shifting) in a fresh world; relational oracle: a lock-out exists after 5 failures and the one after 5(k+1) consecutive failures is strictly longer than the one after 5k; non-trivial = at least two lock-outs measured; distinct = parameter tuple",
 		c14GenEsc, c14CheckEsc)
 }
 
